@@ -202,3 +202,26 @@ Definition dest_code (c : list (N * option N * wdest)) : N :=
   | [] => 0
   | _ => 2 + (if forallb (fun '(_, a, w) => dest_is_bare_page_number a w) bad then 4 else 0)
   end.
+
+(** * named destinations: every authored name resolves to the authored page, in EVERY written copy
+    of the document (a document may be serialized more than once) *)
+Fixpoint assocw (n : bytes) (l : list (bytes * wdest)) : option wdest :=
+  match l with
+  | [] => None
+  | (k, w) :: r => if bytes_eqb k n then Some w else assocw n r
+  end.
+
+(** 0 resolves; 1 present but the recorded bare-page-number deviation; 2 anything else (missing, wrong page) *)
+Definition name_status (found : list (bytes * wdest)) (a : bytes * N) : N :=
+  match assocw (fst a) found with
+  | Some w => if dest_resolves (Some (snd a)) w then 0
+              else if dest_is_bare_page_number (Some (snd a)) w then 1 else 2
+  | None => 2
+  end.
+
+Definition names_code (c : list (bytes * N) * list (list (bytes * wdest))) : N :=
+  let '(auth, copies) := c in
+  let sts := flat_map (fun found => List.map (name_status found) auth) copies in
+  if existsb (N.eqb 2) sts then 2
+  else if existsb (N.eqb 1) sts then 6
+  else 0.
